@@ -12,6 +12,11 @@ Shapes (name n):  G   add_class_arguments(F, n)                      units: n
                   SNN add_argument(--n, type=NN)  NN(sub: N)         units: n.init_args.sub.init_args.sub, n.init_args.sub, n
                   GN  add_class_arguments(P, n)   P(child: F)        units: n.child, n
                   GNN add_class_arguments(PP, n)  PP(child: N)       units: n.child.init_args.sub, n.child, n
+                  GI  add_class_arguments(F, n, instantiate=False)   no unit: never constructed; its link parameters are only
+                      filled by the final pass of instantiate_classes and are read back from the returned cfg
+                      (event ["cfg", n, [[i, value], ...]] at the end of the log)
+A case may carry "uses": [k, ...]: after the k-th link_arguments call (1-based count of calls made) the parser is USED
+(parse_object + instantiate_classes, result discarded) before further links are added - link histories interleaved with use.
 Every class has int parameters l0..l7 (default -1) that links may target, sets self.at to a fresh marker object and the
 attributes an, az, ae, af to None, 0, "" and False (falsy attribute values are values like any other).
 """
@@ -81,13 +86,14 @@ def module_text():
     plist = ", ".join("l%d" % i for i in range(NPAR))
 
     def cls(name, unit, sub=None):
-        group_class = name[len(n) + 1:] in ("G", "GN", "GNN")
+        group_class = name[len(n) + 1:] in ("G", "GN", "GNN", "GI")
         out.append(BODY.format(cls=name, unit=unit, params=PARAMS_INT if group_class else PARAMS_ANY, plist=plist,
                                sub=("%s: %s, " % sub) if sub else ""))
 
     for n in NAMES:
         cls("%s_G" % n, n)
         cls("%s_S" % n, n)
+        cls("%s_GI" % n, n)
         cls("%s_SN_sub" % n, "%s.init_args.sub" % n)
         cls("%s_SN" % n, n, ("sub", "%s_SN_sub" % n))
         cls("%s_SNN_sub_sub" % n, "%s.init_args.sub.init_args.sub" % n)
@@ -109,7 +115,9 @@ def build_parser(mod, decls):
     M = mod.__name__
     for n, shape in decls:
         c = getattr(mod, "%s_%s" % (n, shape))
-        if shape in ("G", "GN", "GNN"):
+        if shape == "GI":
+            p.add_class_arguments(c, n, instantiate=False)
+        elif shape in ("G", "GN", "GNN"):
             p.add_class_arguments(c, n)
             if shape == "GN":
                 cfg[n] = {"child": {"class_path": "%s.%s_GN_child" % (M, n)}}
@@ -144,16 +152,30 @@ def run_case(mod, case):
             return {"outcome": "link_error", "at": k, "why": kind, "log": list(mod.LOG), "msg": str(e)[:160]}
         except BaseException as e:  # noqa
             return {"outcome": "link_exc:" + type(e).__name__, "at": k, "log": list(mod.LOG), "msg": str(e)[:160]}
+        if k + 1 in case.get("uses", ()):
+            try:   # use the parser in between; whatever it does must not influence what follows
+                p.instantiate_classes(p.parse_object(cfg))
+            except BaseException:  # noqa
+                pass
+            mod.LOG.clear()
     try:
         ns = p.parse_object(cfg)
     except BaseException as e:  # noqa
         return {"outcome": "parse:" + type(e).__name__, "log": list(mod.LOG), "msg": str(e)[:200]}
     pre = len(mod.LOG)
     try:
-        p.instantiate_classes(ns)
+        init = p.instantiate_classes(ns)
     except BaseException as e:  # noqa
         return {"outcome": "exc:" + type(e).__name__, "log": list(mod.LOG), "parse_events": pre, "msg": str(e)[:200]}
-    return {"outcome": "ok", "log": list(mod.LOG), "parse_events": pre}
+    log = list(mod.LOG)
+    for n, shape in case["decls"]:
+        if shape == "GI":
+            try:
+                g = init[n]
+                log.append(["cfg", n, [[i, mod.canon(g["l%d" % i])] for i in range(NPAR)]])
+            except BaseException as e:  # noqa
+                log.append(["cfg", n, [[0, ["other", type(e).__name__]]]])
+    return {"outcome": "ok", "log": log, "parse_events": pre}
 
 
 def main():
